@@ -273,6 +273,10 @@ def run(ctx):
                                        consts=None) if False else _judge(variant, cases)
         n += len(cases)
         ctx.traces += len(cases)
+        from harness import canary
+        from checks import canaries
+        canary.probe(ctx, 'Conf_Tools', [c for i, c in enumerate(cases, 1) if i not in set(rejected)], canaries.tools,
+                     lambda cs: {i - 1 for i in _judge(variant, cs)[0]})
         for i in rejected:
             c = cases[i - 1]
             shape = ','.join('%s=%s' % (nm, b['k'] if b['k'] != 'roles' else '+'.join(b['r'])) for nm, b in c['main'] + c['dfile'])
